@@ -14,6 +14,10 @@ def run(c):
         obl_fixed.obl_session_fixed(c, 3, 1, 1, budget_s=600, events=("backspace",))
     else:
         obl_fixed.obl_session_fixed(c, 4, 2, 1, budget_s=1500, events=("backspace",))
+    # "... for all 16 settings ...": the setting in force is the one the idle context was last given
+    import obl_context
+    c.only_clauses = {"configuration_is_replaced", "later_events_see_the_new_configuration"}
+    obl_context.obl_context(c, budget_s=300, updates_only=True)
     c.only_clauses = None
     c.assume("reference silent on: rare Sanskrit letters (spec/classes.py:RARE), automatic vowel forming after & ' and danda, "
              "multi-code-point key values whose first character triggers a rule (other than zo-fola)")
